@@ -397,6 +397,26 @@ def r17_4(rep, M, E, rid):
 
 # ----------------------------------------------------------------------------- R17.5 repeatability
 def r17_5(rep, M, rid):
+    # relative thresholds become absolute by *multiplication* with the reference distance of the structure
+    fn0 = M.func(FQ)
+    nprod = 0
+    for s0 in ast.walk(fn0):
+        if isinstance(s0, ast.Assign) and isinstance(s0.targets[0], ast.Attribute) and s0.targets[0].attr in ("abs_pos_tol", "abs_delaunay_threshold") \
+                and isinstance(s0.value, ast.BinOp):
+            nprod += 1
+            if isinstance(s0.value.op, ast.Mult):
+                rep.ok(rid, f"classify: `{norm(s0)[:60]}` scales the relative option by a distance of the structure")
+            else:
+                rep.violation(rid, f"classify: `{norm(s0)[:60]}`", "a relative tolerance is turned into an absolute one by something other than a product with the reference "
+                              "distance: the region search runs with a tolerance of the wrong magnitude", M.where(FQ, s0))
+    for s0 in ast.walk(fn0):
+        if isinstance(s0, ast.AugAssign) and isinstance(s0.target, ast.Attribute) and s0.target.attr in ("abs_pos_tol", "abs_delaunay_threshold"):
+            nprod += 1
+            if not isinstance(s0.op, ast.Mult):
+                rep.violation(rid, f"classify: `{norm(s0)[:60]}`", "a relative tolerance is turned into an absolute one by something other than a product with the reference "
+                              "distance", M.where(FQ, s0))
+    if nprod < 1:
+        raise AnalysisError("classify: scaling of the relative thresholds not recognised")
     reach, hits = c01.nondeterminism(M, [FQ], ())
     rep.count("functions_reachable", len(reach))
     for fq, n, what in hits:
@@ -881,3 +901,12 @@ def defaults_pass_validation(rep, M, rid, fq=CLS + ".__init__"):
                       f"{fq.split('.')[-2]} cannot be built (the validation test in front of it is inverted or compares with the wrong value)", M.where(fq, r))
     if not reached:
         rep.ok(rid, f"{fq.split('.')[-2]}.__init__: the default options pass the constructor's own validation ({n_folded[0]} tests folded)")
+    # options whose default is None are given a working value during construction (pos_tol: relative mode -> constants.REL_POS_TOL)
+    for s2 in ast.walk(fn):
+        if isinstance(s2, ast.Assign) and isinstance(s2.targets[0], ast.Attribute) and norm(s2.targets[0].value) == "self" and isinstance(s2.value, ast.Name) \
+                and s2.value.id in env and s2.targets[0].attr == s2.value.id and s2.value.id in ("pos_tol",):
+            if env[s2.value.id] is None:
+                rep.violation(rid, f"{fq.split('.')[-2]}.__init__: default of `{s2.value.id}`", f"with every option at its default, `self.{s2.value.id}` is left None: the "
+                              "default relative tolerance is not installed (inverted test), and classify fails on `np.array(None) * distance`", M.where(fq, s2))
+            else:
+                rep.ok(rid, f"{fq.split('.')[-2]}.__init__: the default `{s2.value.id}` resolves to {env[s2.value.id]!r}")
